@@ -16,7 +16,38 @@ class LeafScenario(Scenario):
         self.sn = selfname
         self.on = othername
 
+    def sign_of(self, e, env):
+        """+1 / 0 / None: sign of a numeric expression in this scenario, decided on its VALUE (so local aliases such as
+        `ca = self.entries` or `ca_plus_cb = ca + float(weights.sum())` need no name conventions)."""
+        try:
+            v = formula(e, env, opaque_user)
+        except Unsupported:
+            return None
+        positive = {"weight", "w", "W", "t"}
+        zero = set()
+        for who, empty in ((self.sn, self.self_empty), (self.on, self.other_empty)):
+            (zero if empty else positive).add(f"{who}.entries")
+        if not (len(v.d.t) == 1 and () in v.d.t and v.d.t[()] > 0):
+            return None
+        terms = {}
+        for m, c in v.n.t.items():
+            if any(s in zero for s, _ in m):
+                continue
+            terms[m] = c
+        if not terms:
+            return 0
+        if all(c > 0 and all(s in positive for s, _ in m) for m, c in terms.items()):
+            return 1
+        return None
+
     def eval(self, test, env):
+        if isinstance(test, ast.Compare) and len(test.ops) == 1 and ast.unparse(test.comparators[0]) in ("0.0", "0"):
+            sg = self.sign_of(test.left, env)
+            if sg is not None:
+                op = test.ops[0]
+                table = {ast.Eq: sg == 0, ast.NotEq: sg != 0, ast.Gt: sg > 0, ast.GtE: True, ast.Lt: False, ast.LtE: sg == 0}
+                if type(op) in table:
+                    return table[type(op)]
         if isinstance(test, ast.Call):
             fn = ast.unparse(test.func)
             if fn == "isinstance":
@@ -56,10 +87,13 @@ def opaque_user(e, env):
     if fn.endswith(".transform"):
         return Rat.sym("t")
     if fn in ("numpy.average", "np.average"):
-        txt = ast.unparse(e).replace(" ", "")
-        if "(q-mb)*(q-mb)" in txt:
-            return Rat.sym("AVG2")
-        return Rat.sym("MB")
+        # the weighted mean of squared deviations (x - m) * (x - m) or (x - m) ** 2, versus the weighted mean of x itself
+        a0 = e.args[0] if e.args else None
+        squared = (isinstance(a0, ast.BinOp) and isinstance(a0.op, ast.Mult) and ast.unparse(a0.left) == ast.unparse(a0.right)
+                   and isinstance(a0.left, ast.BinOp) and isinstance(a0.left.op, ast.Sub)) or \
+                  (isinstance(a0, ast.BinOp) and isinstance(a0.op, ast.Pow) and isinstance(a0.right, ast.Constant) and a0.right.value == 2
+                   and isinstance(a0.left, ast.BinOp) and isinstance(a0.left.op, ast.Sub))
+        return Rat.sym("AVG2" if squared else "MB")
     if fn.endswith(".sum") and not e.args:
         return Rat.sym("W")
     raise Unsupported(f"call `{ast.unparse(e)}` in a formula")
